@@ -1,5 +1,6 @@
 """C25 - host state changes keep a single reconnector and notify listeners once (structure)."""
 import ast
+from .. import sem as _sem25
 
 from ..core import AnalysisError, src, body_walk, walk_no_nested, qual_of, decorators
 from ..cfg import CFG, Flow
@@ -228,3 +229,28 @@ def check(chk):
               'outstanding futures is still incomplete - the host is marked up (and listeners are told) before the other sessions have their pools')
     live_iter = [lp for lp in body_walk(ou) if isinstance(lp, ast.For) and src(lp.iter) == 'futures']
     chk.judge(not live_iter, 'C25.register', ou, 'on_up iterates tuple(futures), never the live set', 'the live set is iterated while callbacks discard from it (RuntimeError: Set changed size during iteration)')
+    _forward_rule(chk)
+
+
+def _forward_rule(chk):
+    """signal_connection_failure is how pools and the add/up handlers report a failed connection; what the caller knows about the host's
+    expected state must reach on_down (which decides, from it, whether a host that was never up gets a reconnector)"""
+    chk.rule('C25.expect', 'Cluster.signal_connection_failure forwards host, is_host_addition and expect_host_to_be_down to on_down; on_down starts no reconnector only when the host was not up and was not expected to be down (or is already reconnecting)')
+    cl = chk.repo.mod('cassandra/cluster.py')
+    scf = cl.func('Cluster.signal_connection_failure')
+    od = cl.func('Cluster.on_down')
+    calls = [c for c in body_walk(scf) if isinstance(c, ast.Call) and src(c.func) == 'self.on_down']
+    if len(calls) != 1:
+        raise AnalysisError('signal_connection_failure: self.on_down call not found')
+    params = [a.arg for a in od.args.args][1:]
+    passed = dict(zip(params, [src(a) for a in calls[0].args]))
+    passed.update((k.arg, src(k.value)) for k in calls[0].keywords if k.arg)
+    want = dict((p_, p_) for p_ in ('host', 'is_host_addition', 'expect_host_to_be_down'))
+    chk.judge(all(passed.get(k) == v for k, v in want.items()), 'C25.expect', calls[0], 'on_down(host, is_host_addition, expect_host_to_be_down)',
+              'on_down is called with %s: the caller\'s expect_host_to_be_down is dropped, so a newly discovered host whose pool cannot be opened (is_up None) is marked down '
+              'without a reconnector and never comes back' % passed)
+    g, fl = _sem25.flow_of(od)
+    early = [n for n in g.stmt_nodes() if n.kind == 'return' and any(fa.knows('was_up') is False for fa, _c in fl.at(n))]
+    ok = bool(early) and all(all((fa.knows('was_up') is False and fa.knows('expect_host_to_be_down') is False) or fa.knows('host.is_currently_reconnecting()') is True or
+                                 fa.knows('self.is_shutdown') is True for fa, _c in fl.at(n)) for n in early)
+    chk.judge(ok, 'C25.expect', od, 'on_down gives up early only for a host that was not up and not expected down, or that is already reconnecting', 'the early exit of on_down changed')
